@@ -555,18 +555,24 @@ func vAckNewInst() *vAckInst {
 	return &vAckInst{v, ch, rm, adb}
 }
 
-// configure: followers / ack mode through the REAL UpdateDBAckCount
+// configure: followers / ack mode. The followers LEAVE and JOIN through the real ReplicationManager.removeServerChannel /
+// addServerChannel while the database's ack table already exists (as when a follower re-joins a leader that has served require-ack
+// requests before): the required count every later request is judged by is the one those two functions leave behind.
 func (in *vAckInst) configure(followers, mode, aofTime int) {
-	in.rm.serverChannels = in.rm.serverChannels[:0]
-	for i := 0; i < followers; i++ {
-		in.rm.serverChannels = append(in.rm.serverChannels, &ReplicationServer{})
-	}
 	if mode == 1 {
 		Config.AofAckMode = 1
 	} else {
 		Config.AofAckMode = 0
 	}
-	in.rm.UpdateDBAckCount()
+	for len(in.rm.serverChannels) > 0 {
+		_ = in.rm.removeServerChannel(in.rm.serverChannels[0])
+	}
+	if followers == 0 {
+		in.rm.UpdateDBAckCount() // nobody joins: only the mode may have changed
+	}
+	for i := 0; i < followers; i++ {
+		_ = in.rm.addServerChannel(&ReplicationServer{bufferCursor: NewReplicationBufferQueueCursor(make([]byte, 64))})
+	}
 	in.v.db.aofTime = uint8(aofTime)
 	in.v.slock.state = STATE_LEADER
 	in.v.db.status = STATE_LEADER
